@@ -54,7 +54,61 @@ class GenFamily:
               'ops': [{'op': 'start', 'mid': 'm1', 'vars': {'pid': 'p1'}}, {'op': 'run', 'snap': opts.get('snap', 'live')}, {'op': 'snapshot', 'level': opts.get('snap', 'live')}]}
         return {'scenarios': [sc], 'meta': {'sub': 'gen', 'wf': wf, 'kind': kind, 'list': lst, 'nested': nested, 'ikind': ikind, 'ilist': ilst, 'acts': acts}, 'digest': digest(wf), 'nontrivial': len(lst) >= 1}
 
+    def gen_rerun(self, rng, opts):
+        """a step (or act) with setup acts is run a second time: the client sends its open act back to the step itself.
+        Every instance of the task fires its hooks for its own lifecycle events"""
+        on_act = rng.random() < 0.3
+        su = []
+        if rng.random() < 0.6:
+            su.append({'uses': MSG, 'key': 'plain'})          # a setup act without `on`: runs when the task is initialised
+        su.append({'uses': MSG, 'key': 'hc', 'on': 'created'})
+        if rng.random() < 0.7:
+            su.append({'uses': MSG, 'key': 'hd', 'on': 'completed'})
+        if rng.random() < 0.5:
+            rng.shuffle(su)
+        a1 = {'id': 'a1', 'uses': IRQ, 'key': 'k1'}
+        s1 = {'id': 's1', 'acts': [a1]}
+        (a1 if on_act else s1)['setup'] = su
+        wf = {'id': 'm1', 'steps': [{'id': 's0', 'acts': [{'id': 'a0', 'uses': IRQ, 'key': 'k0'}]}, s1, {'id': 's2', 'acts': [{'id': 'a2', 'uses': MSG, 'key': 'm2'}]}]}
+        rt = rng.choice([{'flavor': 'current'}, {'flavor': 'current', 'chaos': {'max_yields': 3, 'seed': rng.randrange(1, 1 << 40)}}, {'flavor': 'multi', 'workers': 2, 'chaos': {'max_yields': 3, 'seed': rng.randrange(1, 1 << 40)}}])
+        snap = opts.get('snap', 'live')
+        ops = [{'op': 'start', 'mid': 'm1', 'vars': {'pid': 'p1'}}, {'op': 'run', 'snap': snap}]
+        for _ in range(rng.randint(1, 2)):
+            ops += [{'op': 'act', 'target': {'pid': 'p1', 'key': 'k1', 'state': 'interrupted', 'occ': -1}, 'action': 'back', 'options': {'to': 's1'}}, {'op': 'run', 'snap': snap}]
+        ops += [{'op': 'act', 'target': {'pid': 'p1', 'key': 'k1', 'state': 'interrupted', 'occ': -1}, 'action': 'next', 'options': {}}, {'op': 'run', 'snap': snap}, {'op': 'snapshot', 'level': snap}]
+        sc = {'id': '', 'family': 'gen', 'sched': rt['flavor'] + '-rerun', 'seed': rng.randrange(1 << 30), 'runtime': rt, 'engine': {'store': opts.get('store', 'mem'), 'keep_processes': True}, 'models': [json.dumps(wf)],
+              'responder': {'mode': 'quiescent', 'order': 'fifo', 'rules': [{'match': {'key': 'k1'}, 'action': 'none', 'times': 100}, {'match': {'uses': IRQ}, 'action': 'next', 'times': 10000}]}, 'ops': ops}
+        return {'scenarios': [sc], 'meta': {'sub': 'rerun', 'wf': wf, 'on': 'a1' if on_act else 's1', 'setup': su}, 'digest': digest([wf, ops]), 'nontrivial': True}
+
+    def judge_rerun(self, c, obs):
+        out = []
+        h, sc, m = c['hist'][0], c['scenarios'][0], c['meta']
+        sid = sc['id']
+        nid = m['on']
+        inst = [e for e in h.creates if e['nid'] == nid]
+        keys_ = {(e['pid'], e['tid']) for e in inst}
+        # (an instance that never got as far as being initialised has no lifecycle events)
+        started = {(e['pid'], e['tid']) for e in h.states if (e['pid'], e['tid']) in keys_ and e['via'] == 'set' and e['new'] in ('running', 'interrupted')}
+        # (`completed` is the engine's name for the end of a task, whatever its final state: a backed instance has ended too)
+        completed = {(e['pid'], e['tid']) for e in h.states if (e['pid'], e['tid']) in keys_ and e['via'] == 'set' and e['new'] in TERM}
+        obs[f"c16.reruns:{'act' if nid == 'a1' else 'step'}:instances={len(started)}"] += 1
+        if len(started) < 2:
+            return out
+        want = {'plain': len(started), 'hc': len(started), 'hd': len(completed)}
+        for a in m['setup']:
+            key = a['key']
+            if not a.get('on'):
+                continue        # (the property speaks of acts bound to a lifecycle event only)
+            got = sum(1 for e in h.delivers if e['key'] == key and e['state'] in ('created', 'completed') and e.get('retry', 0) == 0)
+            got = sum(1 for e in h.delivers if e['key'] == key and e.get('retry', 0) == 0 and e['state'] == 'completed') or got
+            obs[f"c16.rerun-hooks:{a.get('on') or 'no-on'}"] += 1
+            if got != want[key]:
+                out.append(V('C16', 'hook-firings', f"rerun:{'act' if nid == 'a1' else 'step'}:{a.get('on') or 'plain-setup-act'}:{'more' if got > want[key] else 'fewer'}", f"setup act {key} on {nid} (on: {a.get('on')}): ran {got} times, {nid} had {len(started)} instances of which {len(completed)} ended", scenario=sid))
+        return out
+
     def gen_hooks(self, rng, opts):
+        if not opts.get('restart') and rng.random() < opts.get('rerun', 0.12):
+            return self.gen_rerun(rng, opts)
         n = 0
         hooks = {}     # hook key -> (attached kind, attached id, on)
         hookgen = []   # keys of irq acts generated by a generator that is a hook act
@@ -157,7 +211,7 @@ class GenFamily:
     # ------------------------------------------------------------------
     def judge(self, c, opts, obs):
         sub = c['meta']['sub']
-        return {'gen': self.judge_gen, 'hooks': self.judge_hooks, 'push': self.judge_push}[sub](c, obs)
+        return {'gen': self.judge_gen, 'hooks': self.judge_hooks, 'push': self.judge_push, 'rerun': self.judge_rerun}[sub](c, obs)
 
     def judge_gen(self, c, obs):
         out = []
